@@ -2,6 +2,7 @@ package server
 
 import (
 	"encoding/base64"
+	"errors"
 	"github.com/cbeuw/Cloak/internal/verifhook"
 	"sync"
 	"sync/atomic"
@@ -14,6 +15,8 @@ import (
 )
 
 const defaultUploadInterval = 1 * time.Minute
+
+var errNonPositiveRate = errors.New("user has a non-positive bandwidth rate")
 
 // userPanel is used to authenticate new users and book keep active users
 type userPanel struct {
@@ -72,6 +75,10 @@ func (panel *userPanel) GetUser(UID []byte) (*ActiveUser, error) {
 	upRate, downRate, err := panel.Manager.AuthenticateUser(UID)
 	if err != nil {
 		return nil, err
+	}
+	if upRate <= 0 || downRate <= 0 {
+		// such a user could not move a byte; the rate limiter panics on a non-positive rate
+		return nil, errNonPositiveRate
 	}
 	valve := mux.MakeValve(upRate, downRate)
 	user := &ActiveUser{
